@@ -4,6 +4,22 @@ Events that refute: DataReader.recv() != expected(x); leftover bytes != trailer;
 a read performed when the end-of-data line is already in hand (WouldBlock).
 Oracle: identity (+CRLF rule), exact consumption.  The real IO, DataSender and
 DataReader classes run unmodified on a ScriptSocket.
+
+Strata
+  main   DataReader(io): round-trip identity + exact consumption on every evaluation.
+  size   DataReader(io, max_size=m): the statement's second sentence (consumes exactly up to and
+         including the end-of-data line, leaves later bytes untouched, result independent of the
+         cuts) has no size exception, so it is judged for a reader with a limit as well: leftover
+         == trailer whether the reader returned data or raised MessageTooBig, no read past the
+         end-of-data line, returned data == expected(x), a wire that is not longer than the limit
+         is never refused, and for one (wire, trailer, limit) every segmentation gives the same
+         kind of result (data / MessageTooBig).  Which byte count makes a message "too big" is
+         NOT prescribed (only: it may not depend on the cuts).
+
+The sender is executed through both of its emission paths (DataSender.send(io) + flush, the one
+the client uses, and iteration); the reader product is run once per DISTINCT wire of a message:
+the reader sees nothing of the sender but the wire, so re-running it for another part split that
+produced the identical bytes would repeat identical executions.
 """
 import random
 import itertools
@@ -12,43 +28,98 @@ from vf.sock import ScriptSocket, WouldBlock, segmentations
 from slimta.smtp.io import IO
 from slimta.smtp.datareader import DataReader
 from slimta.smtp.datasender import DataSender
-from slimta.smtp import ConnectionLost
+from slimta.smtp import ConnectionLost, MessageTooBig
 
 PROPERTY = 'C05'
 LEVEL = 'exploration'
 LEVEL_TEXT = ('Real DataSender/IO/DataReader run on a scripted socket; exhaustive over all messages over '
-              '{".",CR,LF,"a"} up to length 5 (quick) / 8 (thorough) x sender part splits x 6 trailers x '
-              'pre-buffering x (all or a structured set of) segmentations, plus seeded 8-bit messages; '
-              'round-trip identity and exact consumption judged on every evaluation. Held = held on the '
-              'millions of evaluations reported, not a proof for longer messages.')
-LEVEL_NOTE = 'Trusted: ScriptSocket (60 lines), the expected() rule (x or x+CRLF), segment generator.'
+              '{".",CR,LF,"a"} up to length 6 (quick) / 8 (thorough; the longest length comes last, in a fixed shuffled order, as far as the budget allows), all sequences of <= 5 (quick) / 6 (thorough) '
+              'tokens over {".","a",CRLF} beyond that length, a designed family of dot+whitespace lines, and seeded '
+              '8-bit messages; x every sender part split (both emission paths) x 6 trailers x pre-buffering x (all '
+              'or a structured set of) segmentations; round-trip identity and exact consumption judged on every '
+              'evaluation. Second stratum: the same reader with max_size at every position of short wires (1..n+1) '
+              '/ a spread of positions of longer ones: exact consumption, no stray read, identity when data is '
+              'returned, same kind of result under every segmentation. Held = held on the millions of evaluations '
+              'reported, not a proof for longer messages.')
+LEVEL_NOTE = ('Trusted: ScriptSocket (60 lines), the expected() rule (x or x+CRLF), segment generator, the rule '
+              '"a wire of n bytes is within any limit >= n".')
 TECHNIQUE = 'runtime monitoring: round-trip + exact-consumption oracle over exhaustive small alphabet and all segmentations'
-RULE = ('case = one message x; for it every split of x into sender parts at line boundaries '
-        '(cap 16 subsets, plus variants with empty parts at the front, the end and between parts), 6 trailers, pre-buffered first segment or not, and every segmentation '
-        'of the wire for wires <= 9 bytes (else whole, bytewise, every single cut, pairs of cuts '
-        'around the end-of-data line, seeded random) is one evaluation. x is enumerated '
-        'exhaustively over {".",CR,LF,"a"} up to the tier bound, then seeded 8-bit random. '
-        'non-trivial & distinct = distinct x that has a dot-leading line, a bare CR/LF, no final '
-        'CRLF or is empty')
+RULE = ('case = one message x; every split of x into sender parts at line boundaries (cap 16 subsets, plus variants '
+        'with empty parts at the front, the end and between parts) is emitted through DataSender.send(io) and '
+        'through iteration; for every DISTINCT wire so obtained: 6 trailers, pre-buffered first segment or not, and '
+        'every segmentation of the wire for wires <= 9 bytes (else whole, bytewise, every single cut, pairs of cuts '
+        'around the end-of-data line, seeded random) is one evaluation. Size stratum per wire: max_size in 1..n+1 '
+        '(n = wire length; a spread {1,2,3,n/2,n-3..n+1} for n > 9 or {1,n-1,n} for the '
+        'longest exhaustive length, {1,n/2,n-2..n+1} for random messages) x 2 trailers x the same segmentations (extra cut pairs around the byte at '
+        'which the limit is crossed) x pre-buffering. x is enumerated exhaustively over {".",CR,LF,"a"} up to the '
+        'tier bound, over token sequences {".","a",CRLF} longer than the bound, a designed dot+whitespace family, '
+        'then seeded 8-bit random. non-trivial & distinct = distinct x that has a dot-leading line, a bare CR/LF, '
+        'no final CRLF or is empty')
 ASSUMPTIONS = ['ScriptSocket hands out exactly the scripted segments (recv(n) never returns more than n)',
-               'sender parts are split only at line boundaries, as the property states']
-REQUIRED_HITS = ['reader-returned', 'leftover-compared']
-SHARDS = {'quick': 8, 'thorough': 16}
+               'sender parts are split only at line boundaries, as the property states',
+               'the reader is a function of (wire + trailer, segmentation, pre-buffered prefix, max_size) only: '
+               'two part splits that emit identical bytes need one reader product, not two',
+               'size stratum: a wire (message + end-of-data line) of n bytes does not exceed a limit >= n; '
+               'below that the check does not say which messages are too big, only that the answer is the same '
+               'for every segmentation']
+REQUIRED_HITS = ['reader-returned', 'leftover-compared', 'sender-send-path', 'size/leftover-compared-after-too-big',
+                 'size/leftover-compared-after-data', 'size/same-result-kind-judged']
+SHARDS = {'quick': 16, 'thorough': 16}
 BUDGET = {'quick': 70, 'thorough': 900}
 EXHAUSTIVE = {'quick': False, 'thorough': False}
 
 ALPHA = [b'.', b'\r', b'\n', b'a']
+TOKENS = [b'.', b'a', b'\r\n']
 TRAILERS = [b'', b'QUIT\r\n', b'.\r\n', b'..x\r\nY', b'\r\n.\r\nMAIL FROM:<a>\r\n', b'.']
-BOUND = {'quick': 5, 'thorough': 8}
+SIZE_TRAILERS = [b'', b'.a\r\n.\r\nQUIT\r\n']
+BOUND = {'quick': 6, 'thorough': 8}
+TOKBOUND = {'quick': 5, 'thorough': 6}
 NRANDOM = {'quick': 400, 'thorough': 20000}
+
+
+def designed_ws():
+    """Lines the reader's lenient end-of-data pattern (dot, optional white space, LF) would take for the
+    end of the message if the sender had not stuffed them."""
+    for dotws in (b'. ', b'.\t', b'.  ', b'.\x0b', b'.\x0c', b'.\r', b'. \r', b' .', b'\t.', b' . '):
+        for eol in (b'\r\n', b'\n'):
+            for pre in (b'', b'a\r\n', b'\n'):
+                for suf in (b'', b'a', b'.\r\n'):
+                    yield pre + dotws + eol + suf
 
 
 def gen_cases(tier, seed, shard, nshards):
     n = 0
-    for L in range(0, BOUND[tier] + 1):
+    B = BOUND[tier]
+
+    def exh(L):
+        nonlocal n
         for tup in itertools.product(ALPHA, repeat=L):
             if n % nshards == shard:
                 yield {'x': b''.join(tup), 'kind': 'exh'}
+            n += 1
+
+    def exh_top(L):
+        # the longest length in a fixed pseudo-random order (an odd multiplier is a bijection on 4**L), so that a
+        # run cut by the budget has seen a spread of it and not only the strings that begin with "."
+        N = 4 ** L
+        for j in range(shard, N, nshards):
+            i = (j * 40503 + 12345) % N
+            yield {'x': b''.join(ALPHA[(i >> (2 * k)) & 3] for k in range(L)), 'kind': 'exh', 'top': True}
+
+    for L in range(0, B):
+        for c in exh(L):
+            yield c
+    for x in designed_ws():
+        if n % nshards == shard:
+            yield {'x': x, 'kind': 'ws'}
+        n += 1
+    for L in range(1, TOKBOUND[tier] + 1):
+        for tup in itertools.product(TOKENS, repeat=L):
+            x = b''.join(tup)
+            if len(x) <= B:
+                continue            # already in the byte-exhaustive part
+            if n % nshards == shard:
+                yield {'x': x, 'kind': 'tok'}
             n += 1
     rnd = random.Random('c05-%d-%d' % (seed, shard))
     pool = [b'.', b'.', b'\r', b'\n', b'\r\n', b'\r\n.', b'\n.', b'a', b'\xff', b'\x00', b'..', b' ']
@@ -57,6 +128,10 @@ def gen_cases(tier, seed, shard, nshards):
         x = b''.join(rnd.choice(pool) if rnd.random() < 0.8 else bytes([rnd.randrange(256)])
                      for _ in range(rnd.randrange(1, k + 1)))
         yield {'x': x, 'kind': 'rand', 'rs': rnd.randrange(1 << 30)}
+    # the longest exhaustive length comes last: if the soft budget cuts the generator, only part of it is lost
+    # (and the evidence says so: budget_exhausted_before_generator_end)
+    for c in exh_top(B):
+        yield c
 
 
 def expected(x):
@@ -101,24 +176,109 @@ def is_nontrivial(x):
     return b'\r' in y or b'\n' in y
 
 
-def one(x, parts, t, segs, pre):
-    """Run the real reader once. Returns (why, out, left)."""
+def emit_send(parts):
+    """What DataSender.send(io) followed by a flush puts on the socket (the client's path)."""
+    ss = ScriptSocket([])
+    io = IO(ss, address=('h', 1))
+    DataSender(*parts).send(io)
+    io.flush_send()
+    return b''.join(ss.sent)
+
+
+def read(segs, pre, max_size=None):
+    """Run the real reader once. Returns (kind, out, left); kind 'data' | 'too-big' | a failure word."""
     ss = ScriptSocket(segs[1:] if pre else segs)
     io = IO(ss, address=('h', 1))
     if pre and segs:
         io.recv_buffer = segs[0]
+    reader = DataReader(io) if max_size is None else DataReader(io, max_size)
+    kind, out = 'data', None
     try:
-        out = DataReader(io).recv()
+        out = reader.recv()
     except WouldBlock:
         return 'reads-when-eod-in-hand', None, None
     except ConnectionLost:
         return 'connection-lost', None, None
-    left = io.recv_buffer + ss.unread()
+    except MessageTooBig:
+        kind = 'too-big'
+    return kind, out, io.recv_buffer + ss.unread()
+
+
+def one(x, parts, t, segs, pre):
+    """Main stratum. Returns (why, out, left)."""
+    kind, out, left = read(segs, pre)
+    if kind == 'too-big':
+        return 'content-differs', 'MessageTooBig raised without a limit', left
+    if kind != 'data':
+        return kind, None, None
     if out not in expected(x):
         return 'content-differs', out, left
     if left != t:
         return 'leftover-differs', out, left
     return None, out, left
+
+
+def size_limits(n, case):
+    if n <= 9 and not case.get('top'):
+        return list(range(1, n + 2))
+    if case.get('top'):
+        return sorted(set(m for m in (1, n - 1, n) if m >= 1))
+    if case['kind'] == 'rand':
+        return sorted(set(m for m in (1, n // 2, n - 2, n - 1, n, n + 1) if m >= 1))
+    return sorted(set(m for m in (1, 2, 3, n // 2, n - 3, n - 2, n - 1, n, n + 1) if m >= 1))
+
+
+def size_stratum(x, parts, wire, case, rnd, R):
+    """DataReader(io, max_size=m) over the same wire: see the module docstring."""
+    n = len(wire)
+    emp = '/empty-message' if x == b'' else ''
+    for m in size_limits(n, case):
+        R.observe('size/limit-position', (min(m, 4), min(max(n - m, -1), 4)))
+        for t in SIZE_TRAILERS:
+            data = wire + t
+            kinds = {}
+            for label, segs in segmentations(data, rnd, focus=(n, n - 3, m, m + 1), nrandom=2, pair_window=2):
+                for pre in (False, True):
+                    if pre and not segs:
+                        continue
+                    R.eval()
+                    kind, out, left = read(segs, pre, m)
+                    why = None
+                    if kind == 'data':
+                        R.hit('size/leftover-compared-after-data')
+                        if out not in expected(x):
+                            why = 'content-differs'
+                        elif left != t:
+                            why = 'leftover-differs/data-returned'
+                    elif kind == 'too-big':
+                        R.hit('size/leftover-compared-after-too-big')
+                        if m >= n:
+                            why = 'refused-although-wire-within-limit'
+                        elif left != t:
+                            why = 'leftover-differs/after-too-big'
+                    else:
+                        why = kind
+                    if kind in ('data', 'too-big') and kind not in kinds:
+                        kinds[kind] = (segs, pre)
+                    if why:
+                        R.violation('size-limit/' + why + emp,
+                                    '%s with max_size=%d (wire %d bytes) for x=%r trailer=%r'
+                                    % (why, m, n, x[:40], t),
+                                    {'x': x, 'parts': parts, 'wire': wire, 'max_size': m, 'trailer': t,
+                                     'segments': segs, 'prebuffered_first_segment': pre, 'result': kind,
+                                     'got': out, 'leftover': left, 'expected': expected(x)})
+            R.hit('size/same-result-kind-judged')
+            if len(kinds) > 1:
+                R.violation('size-limit/result-depends-on-segmentation' + emp,
+                            'max_size=%d (wire %d bytes): data returned under one segmentation, MessageTooBig '
+                            'under another, for x=%r trailer=%r' % (m, n, x[:40], t),
+                            {'x': x, 'parts': parts, 'wire': wire, 'max_size': m, 'trailer': t,
+                             'data_returned_with': {'segments': kinds['data'][0],
+                                                    'prebuffered_first_segment': kinds['data'][1]},
+                             'too_big_with': {'segments': kinds['too-big'][0],
+                                              'prebuffered_first_segment': kinds['too-big'][1]}})
+            elif kinds:
+                R.count('size/all-segmentations-' + next(iter(kinds)))
 
 
 def run_case(case, R):
@@ -127,13 +287,26 @@ def run_case(case, R):
     if is_nontrivial(x):
         R.nontrivial(x)
     first = True
+    # --- the sender: every part split through both emission paths; distinct wires are kept
+    wires = {}
     for parts in partsets(x, rnd):
-        wire = b''.join(DataSender(*parts))
+        R.eval()
+        R.count('sender/part-splits-emitted')
+        sent = emit_send(parts)
+        R.hit('sender-send-path')
+        it = b''.join(DataSender(*parts))
+        if it != sent:
+            R.count('sender/iteration-differs-from-send')
+            wires.setdefault(it, parts)
+        wires.setdefault(sent, parts)
+    R.count('sender/distinct-wires', len(wires))
+    # --- the reader: full product once per distinct wire
+    for wire, parts in wires.items():
         for t in TRAILERS:
             data = wire + t
             eod = len(wire)
             for label, segs in segmentations(data, rnd, focus=(eod, eod - 3, eod - 5),
-                                             nrandom=6 if case['kind'] == 'exh' else 10):
+                                             nrandom=6 if case['kind'] != 'rand' else 10):
                 for pre in (False, True):
                     if pre and not segs:
                         continue
@@ -153,3 +326,4 @@ def run_case(case, R):
                         if len(x) > 2 and is_nontrivial(x):
                             R.sample({'x': x, 'parts': parts, 'trailer': t, 'segments': segs, 'got': out,
                                       'leftover': left})
+        size_stratum(x, parts, wire, case, rnd, R)
